@@ -6,8 +6,8 @@ patch=$(readlink -f $1); id=$2; shift 2
 wt=$(mktemp -d /tmp/seedwt-XXXXXX); rmdir $wt
 git -C /repo worktree add -q --detach $wt HEAD || exit 2
 ( cd $wt && git apply $patch ) || { echo "patch does not apply"; git -C /repo worktree remove --force $wt; exit 2; }
-cd /verif && VERIF_REPO=$wt timeout 3000 ./check $id --no-evidence "$@" > /tmp/seedcheck_$id.log 2>&1; rc=$?
+cd /verif && VERIF_REPO=$wt timeout 3000 ./check $id --no-evidence "$@" > /tmp/seedcheck_$id$SEEDCHECK_TAG.log 2>&1; rc=$?
 git -C /repo worktree remove --force $wt
-echo "check $id rc=$rc  $(grep -c '^VIOLATION' /tmp/seedcheck_$id.log) violation lines; $(grep -c 'HARNESS-ERROR' /tmp/seedcheck_$id.log) harness errors"
-grep "^  violation in" /tmp/seedcheck_$id.log | head -3 | cut -c1-250
-tail -1 /tmp/seedcheck_$id.log | cut -c1-250
+echo "check $id rc=$rc  $(grep -c '^VIOLATION' /tmp/seedcheck_$id$SEEDCHECK_TAG.log) violation lines; $(grep -c 'HARNESS-ERROR' /tmp/seedcheck_$id$SEEDCHECK_TAG.log) harness errors"
+grep "^  violation in" /tmp/seedcheck_$id$SEEDCHECK_TAG.log | head -3 | cut -c1-250
+tail -1 /tmp/seedcheck_$id$SEEDCHECK_TAG.log | cut -c1-250
